@@ -539,8 +539,8 @@ class FunctionNode(ASTNode):
         return f'column({self._build_reference})'
 
     def func_offset(self):
-        to_emit = self.comma_join_emit().split(')', 1)[1]
-        return f'offset({self._build_reference}{to_emit})'
+        to_emit = self.comma_join_emit(to_emit=self.children[1:])
+        return f'offset({self._build_reference}, {to_emit})'
 
     def func_indirect(self):
         to_emit = list(self.emit_arg(c) for c in self.children)
